@@ -231,6 +231,11 @@ func (s *Set) Intersect(t Set) error {
 			if telem.min.greaterThan(selem.min) || (telem.min.equal(selem.min) && telem.minOpen) {
 				min = telem.min
 				minOpen = telem.minOpen
+			} else if telem.min.equal(selem.min) && telem.minOpen == selem.minOpen && telem.min.isPrerelease && !selem.min.isPrerelease {
+				// Equal bounds, but only one of them is a prerelease the user
+				// wrote (the other is the synthetic minimum version): keep
+				// that one whichever side it is on.
+				min = telem.min
 			}
 			if telem.max.lessThan(selem.max) || (telem.max.equal(selem.max) && telem.maxOpen) {
 				max = telem.max
